@@ -436,7 +436,7 @@ def split_job(job):
             if ws.crashed(rc):
                 return [('crash', 'push %s exits with %s: %s' % (goal, rc, se[-150:]))]
             last = rc
-        rc2, so2, se2 = ws.push(w2, ['-a', '-q', '--threads', 1])
+        rc2, so2, se2 = ws.push(w2, ['-a', '-q', '--threads', 3 - threads if threads in (1, 2) else 1])
         a, b = observable(ws.snapshot(w1)), observable(ws.snapshot(w2))
         probs = []
         if a != b:
